@@ -74,10 +74,7 @@ pub fn verif_push_to_last<'a>(v: &mut Vec<LineSections<'a, SyntectStyle>>, x: (S
             forall|i: int| 0 <= i < old(v)@.len() - 1 ==> #[trigger] final(v)@[i] == old(v)@[i],
             final(v)@.last()@ == old(v)@.last()@.push(x),
 { unimplemented!() }
-/// `str::trim_end`; uninterpreted
-pub uninterp spec fn trim_end_spec(s: Seq<char>) -> Seq<char>;
-pub assume_specification[ str::trim_end ](s: &str) -> (r: &str)
-    ensures r@ == trim_end_spec(s@);
+// (`str::trim_end` is named in prelude/std_assumed.rs: `trim_end_spec`)
 
 /// C15/C01: every line gets sections that spell exactly the line, so that superimposing them on the diff
 /// sections (a zip over characters) neither drops nor invents a character
